@@ -1,7 +1,10 @@
 ----------------------------- MODULE MCDeferred -----------------------------
 EXTENDS Deferred
-K(t, v, i, du) == [target |-> t, v1 |-> v, ident |-> i, dup |-> du, whole |-> FALSE]
+K(t, v, i, du) == [target |-> t, v1 |-> v, ident |-> i, dup |-> du, whole |-> FALSE, pre |-> FALSE]
+P(c) == [c EXCEPT !.pre = TRUE]
 DCfgs == { K("path", FALSE, FALSE, FALSE), K("path", TRUE, FALSE, FALSE), K("stream", TRUE, FALSE, FALSE),
-           K("path", FALSE, TRUE, FALSE), K("stream", TRUE, TRUE, TRUE) }
+           K("path", FALSE, TRUE, FALSE), K("stream", TRUE, TRUE, TRUE),
+           P(K("path", FALSE, FALSE, FALSE)), P(K("path", TRUE, FALSE, TRUE)),       \* the path holds a longer file already
+           K("stream", FALSE, FALSE, FALSE) }                                         \* explicit WriteAsCarV1(false) on a stream
 DRoots == <<"b1">>
 =============================================================================
